@@ -56,20 +56,27 @@ Definition has_var (t : vtree) (col : N) (p : path) (nm : name) : bool :=
                  | _ => false end
   | None => false
   end.
-(* _mutable_collection + put: creates the dicts on the way *)
-Fixpoint put_at (p : path) (nm : name) (v : sval) (n : node) : node :=
+(* _mutable_collection + put: creates the dicts on the way.  A leaf where a dict is expected makes the real code raise
+   (item assignment on an array): None *)
+Fixpoint put_at (p : path) (nm : name) (v : sval) (n : node) : option node :=
   match n with
-  | VLeaf x => VLeaf x      (* a leaf where a dict is expected: cannot happen for generated programs *)
+  | VLeaf _ => None
   | VNode kids =>
       match p with
-      | [] => VNode (nset nm (VLeaf v) kids)
+      | [] => Some (VNode (nset nm (VLeaf v) kids))
       | k :: r => let sub := match nassoc k kids with Some s => s | None => VNode [] end in
-                  VNode (nset k (put_at r nm v sub) kids)
+                  match put_at r nm v sub with
+                  | Some sub' => Some (VNode (nset k sub' kids))
+                  | None => None
+                  end
       end
   end.
-Definition put_var (t : vtree) (col : N) (p : path) (nm : name) (v : sval) : vtree :=
+Definition put_var (t : vtree) (col : N) (p : path) (nm : name) (v : sval) : option vtree :=
   let root := match cassoc col t with Some r => r | None => VNode [] end in
-  cset col (put_at p nm v root) t.
+  match put_at p nm v root with
+  | Some root' => Some (cset col root' t)
+  | None => None
+  end.
 (* is_collection_empty: col absent from the root variables, or its dict empty *)
 Definition col_empty (t : vtree) (col : N) : bool :=
   match cassoc col t with Some (VNode []) => true | Some _ => false | None => true end.
@@ -201,8 +208,11 @@ Section Interp.
         else match make_rng ev p col s with
              | Err e => Err e
              | Ok s1 => let v := repeat c0 (psize n input) in
-                        Ok (mkFrame ((x, v) :: f_locals fr1) (f_resv fr1) (f_auto fr1) (f_insts fr1),
-                            mkSt (put_var (s_vars s1) col p nm (SVec v)) (s_counters s1) (s_trace s1 ++ [ParamInit p nm]))
+                        match put_var (s_vars s1) col p nm (SVec v) with
+                        | Some t' => Ok (mkFrame ((x, v) :: f_locals fr1) (f_resv fr1) (f_auto fr1) (f_insts fr1),
+                                         mkSt t' (s_counters s1) (s_trace s1 ++ [ParamInit p nm]))
+                        | None => Err EOther
+                        end
              end
     | SVar x col nm n c0 =>
         if name_reserved (f_resv fr) nm (Some col) then Err ENameInUse else
@@ -214,12 +224,18 @@ Section Interp.
           end
         else if negb (mut col) then (if col_empty (s_vars s) col then Err ECollectionNotFound else Err EVariableNotFound)
         else let v := repeat c0 n in
-             Ok (mkFrame ((x, v) :: f_locals fr1) (f_resv fr1) (f_auto fr1) (f_insts fr1),
-                 mkSt (put_var (s_vars s) col p nm (SVec v)) (s_counters s) (s_trace s))
+             match put_var (s_vars s) col p nm (SVec v) with
+             | Some t' => Ok (mkFrame ((x, v) :: f_locals fr1) (f_resv fr1) (f_auto fr1) (f_insts fr1), mkSt t' (s_counters s) (s_trace s))
+             | None => Err EOther
+             end
     | SVarSet col nm e =>
         match eval (f_locals fr) input e with
         | None => Err EOther
-        | Some v => if mut col then Ok (fr, mkSt (put_var (s_vars s) col p nm (SVec v)) (s_counters s) (s_trace s))
+        | Some v => if mut col then
+                      match put_var (s_vars s) col p nm (SVec v) with
+                      | Some t' => Ok (fr, mkSt t' (s_counters s) (s_trace s))
+                      | None => Err EOther
+                      end
                     else Err EModifyScope
         end
     | SSow col nm e =>
@@ -229,11 +245,17 @@ Section Interp.
             if negb (mut col) then Ok (fr, s) else
             if has_var (s_vars s) col p nm then
               match get_var (s_vars s) col p nm with
-              | Some (STuple vs) => Ok (fr, mkSt (put_var (s_vars s) col p nm (STuple (vs ++ [v]))) (s_counters s) (s_trace s))
+              | Some (STuple vs) => match put_var (s_vars s) col p nm (STuple (vs ++ [v])) with
+                                    | Some t' => Ok (fr, mkSt t' (s_counters s) (s_trace s))
+                                    | None => Err EOther
+                                    end
               | _ => Err EOther
               end
             else if name_reserved (f_resv fr) nm (Some col) then Err EDuplicateName
-            else Ok (reserve nm (Some col) fr, mkSt (put_var (s_vars s) col p nm (STuple [v])) (s_counters s) (s_trace s))
+            else match put_var (s_vars s) col p nm (STuple [v]) with
+                 | Some t' => Ok (reserve nm (Some col) fr, mkSt t' (s_counters s) (s_trace s))
+                 | None => Err EOther
+                 end
         end
     | SPerturb x nm e =>
         let col := e_perturb ev in
@@ -243,7 +265,10 @@ Section Interp.
             let step1 : res (frame * st) :=
               if mut col && negb (has_var (s_vars s) col p nm) then
                 if name_reserved (f_resv fr) nm (Some col) then Err EDuplicateName
-                else Ok (reserve nm (Some col) fr, mkSt (put_var (s_vars s) col p nm (SVec (zeros_like v))) (s_counters s) (s_trace s))
+                else match put_var (s_vars s) col p nm (SVec (zeros_like v)) with
+                     | Some t' => Ok (reserve nm (Some col) fr, mkSt t' (s_counters s) (s_trace s))
+                     | None => Err EOther
+                     end
               else Ok (fr, s) in
             match step1 with
             | Err e => Err e
